@@ -140,6 +140,17 @@ private:
 
     typename VectorType::size_type m_numObjectsOnStack;
 
+#if defined(APACHE_XALAN_C_VERIF)
+public:
+
+    // Verification hook:  the number of objects handed out and not yet released.
+    typename VectorType::size_type
+    verifObjectsOnStack() const
+    {
+        return m_numObjectsOnStack;
+    }
+#endif
+
 };
 
 
